@@ -62,7 +62,7 @@ META = {
     "bounds": {"interactions_per_run": "1..3", "messages_per_interaction": "<= 14 (the consumer stops the interaction beyond; keeps open-ended repetitions below Fandango's generation cap of 20)", "parties": "1-2 fuzzer, 0-3 external", "message_types": "2..6", "virtual_time_per_run": "<= 900 s"},
     "assumptions": [
         "transport is a reliable ordered byte stream per sender (the property is about Fandango's handling of what arrives)",
-        "message types are prefix-free (distinct keywords), so segmentation of a peer's stream is timing independent",
+        "message types are prefix-free (distinct keywords) except for one deliberately prefix-overlapping pair per spec in ~20 % of the specs; there the peers keep fragment gaps below the product's 1 s completion wait unless a slow-fragment/transport fault is injected",
     ],
 }
 
